@@ -46,6 +46,8 @@ pub fn leaf_table(with_f64: bool) -> Vec<Ty> {
             v.push(Ty::Array(Box::new(e), n));
         }
     }
+    // arrays whose element struct itself nests a struct (reachable only through the array element)
+    v.push(Ty::Array(Box::new(Ty::Struct(DEEP.into())), 2));
     v.push(Ty::Struct(INNER.into()));
     v.push(Ty::Struct(INNER2.into()));
     v.push(Ty::Struct(DEEP.into()));
@@ -159,7 +161,7 @@ pub fn struct_space(with_f64: bool, three: bool, attrs: bool, rt_arrays: bool) -
     }
     if rt_arrays {
         let f = Scalar::F32;
-        for e in [Ty::Scalar(f), Ty::Vec(2, f), Ty::Vec(3, f), Ty::Vec(4, f), Ty::Mat(4, 4, f), Ty::Mat(3, 3, f), Ty::Struct(INNER.into()), Ty::Scalar(Scalar::U32), Ty::Vec(3, Scalar::I32), Ty::Array(Box::new(Ty::Vec(2, f)), 3)] {
+        for e in [Ty::Scalar(f), Ty::Vec(2, f), Ty::Vec(3, f), Ty::Vec(4, f), Ty::Mat(4, 4, f), Ty::Mat(3, 3, f), Ty::Struct(INNER.into()), Ty::Scalar(Scalar::U32), Ty::Vec(3, Scalar::I32), Ty::Array(Box::new(Ty::Vec(2, f)), 3), Ty::Struct(DEEP.into())] {
             out.push(make_prog(vec![Member::plain(names[0], Ty::RtArray(Box::new(e.clone())))], "storage-read", format!("rt1|{}", e.wgsl())));
             for first in [Ty::Scalar(Scalar::U32), Ty::Vec(3, f), Ty::Struct(INNER.into())] {
                 out.push(make_prog(
